@@ -90,6 +90,79 @@ class Opaque:
         return self
 
 
+class Term:
+    """uninterpreted term over abstract arrays / scalars: (op, args, kwargs); built by the term fallbacks below. Structural
+    equality; arithmetic, indexing, method calls and library calls on terms build bigger terms, comparisons / truth fork."""
+    __slots__ = ("op", "args", "kw")
+
+    def __init__(self, op, args=(), kw=()):
+        self.op = op
+        self.args = tuple(args)
+        self.kw = tuple(sorted(kw.items())) if isinstance(kw, dict) else tuple(kw)
+
+    def _key(self):
+        return (self.op, tuple(_term_key(a) for a in self.args), tuple((k, _term_key(v)) for k, v in self.kw))
+
+    def __eq__(self, o):
+        return isinstance(o, Term) and self._key() == o._key()
+
+    def __hash__(self):
+        return hash(self._key())
+
+    def __repr__(self):
+        inner = [_term_str(a) for a in self.args] + [f"{k}={_term_str(v)}" for k, v in self.kw]
+        return f"{self.op}({', '.join(inner)})"
+
+    def subterms(self):
+        yield self
+        for a in list(self.args) + [v for _, v in self.kw]:
+            for x in (a if isinstance(a, (list, tuple)) else [a]):
+                if isinstance(x, Term):
+                    yield from x.subterms()
+
+
+def _term_key(a):
+    if isinstance(a, Term):
+        return a._key()
+    if isinstance(a, (list, tuple)):
+        return tuple(_term_key(x) for x in a)
+    if isinstance(a, slice):
+        return ("slice", _term_key(a.start), _term_key(a.stop), _term_key(a.step))
+    if isinstance(a, Num):
+        return ("num", a.canon())
+    if isinstance(a, Obj):
+        return ("obj", a.label)
+    if isinstance(a, ExtRef):
+        return ("ext", a.dotted)
+    if isinstance(a, FuncRef):
+        return ("func", a.fi.qualname)
+    if isinstance(a, LambdaRef):
+        return ("lambda", a.node.lineno, a.node.col_offset)
+    if isinstance(a, dict):
+        return ("dict", tuple(sorted((repr(k), _term_key(v)) for k, v in a.items())))
+    try:
+        hash(a)
+        return a
+    except TypeError:
+        return repr(a)
+
+
+def _term_str(a):
+    if isinstance(a, Num):
+        return a.canon()
+    if isinstance(a, slice):
+        return f"{_term_str(a.start) if a.start is not None else ''}:{_term_str(a.stop) if a.stop is not None else ''}"
+    if isinstance(a, (list, tuple)):
+        return "[" + ", ".join(_term_str(x) for x in a) + "]"
+    if isinstance(a, Obj):
+        return a.label
+    return repr(a)
+
+
+_BINOP_NAME = {"Add": "+", "Sub": "-", "Mult": "*", "Div": "/", "Pow": "**", "FloorDiv": "//", "Mod": "%", "BitOr": "|", "BitAnd": "&", "MatMult": "@"}
+_CMP_NAME = {"Lt": "<", "LtE": "<=", "Gt": ">", "GtE": ">=", "Eq": "==", "NotEq": "!="}
+
+
 class UnknownBool:
     def __init__(self, label):
         self.label = label
@@ -558,6 +631,11 @@ class Interp:
             if (fv.dotted.startswith("builtins.") or fv.dotted.startswith("sqlite3.")) and short in _BUILTIN_EXC:
                 return ExcVal(_BUILTIN_EXC[short], node=node, msg=args[0] if args and isinstance(args[0], str) else "",
                               func=self.stack[-1] if self.stack else None)
+            fb = getattr(self, "ext_fallback", None)
+            if fb is not None:
+                r = fb(self, fv.dotted, args, kwargs, node)
+                if r is not NotImplemented:
+                    return r
             self.err(node, f"no summary for external callable '{fv.dotted}'")
         if isinstance(fv, LibMethod):
             return self.call_libmethod(fv.recv, fv.name, args, kwargs, node)
@@ -614,6 +692,8 @@ class Interp:
             return str(v)
         if isinstance(v, Mask):
             return v.desc
+        if isinstance(v, Term):
+            return repr(v)
         if isinstance(v, UnknownBool):
             return "?" + v.label
         if type(v).__name__ in ("SStr", "Tok", "MiniFrame", "Col"):
@@ -626,6 +706,10 @@ class Interp:
 
     # -- library methods -------------------------------------------------------
     def call_libmethod(self, recv, name, args, kwargs, node):
+        if isinstance(recv, Term):
+            if ("Term", name) in self.libmeth:
+                return self.libmeth[("Term", name)](self, recv, args, kwargs, node)
+            return Term("." + name, [recv] + list(args), kwargs)
         if isinstance(recv, str) and name == "join" and getattr(self, "sym_strings", False):
             return self.str_join(self, recv, self.iterate(args[0], node), node)
         if isinstance(recv, str) and name in _STR_METHODS:
@@ -706,6 +790,8 @@ class Interp:
             return "Opaque:" + v.tag.split("(")[0]
         if isinstance(v, Mask):
             return "Mask"
+        if isinstance(v, Term):
+            return "Term"
         return type(v).__name__     # incl. SStr, Tok, MiniFrame, Col of pgverif.docsim
 
     def to_py(self, v, node=None):
@@ -758,6 +844,8 @@ class Interp:
             return self.choose(2, label or f"truth({v.canon()})") == 0
         if isinstance(v, UnknownBool):
             return self.choose(2, label or v.label) == 0
+        if isinstance(v, Term):
+            return self.choose(2, label or f"truth({v!r})") == 0
         if _is_sym(v):
             if v.is_zero is True:
                 return False
@@ -839,6 +927,8 @@ class Interp:
         return None
 
     def compare(self, op, a, b, node):
+        if (isinstance(a, Term) or isinstance(b, Term)) and type(op).__name__ in _CMP_NAME:
+            return UnknownBool(f"{_term_str(a)} {_CMP_NAME[type(op).__name__]} {_term_str(b)}")
         if (_is_sym(a) or _is_sym(b)) and isinstance(op, (ast.Eq, ast.NotEq)) and \
                 (isinstance(a, (Num, bool)) or _is_sym(a)) and (isinstance(b, (Num, bool)) or _is_sym(b)):
             rel = (_sp.Eq if isinstance(op, ast.Eq) else _sp.Ne)(num_to_sym(a), num_to_sym(b))
@@ -949,6 +1039,10 @@ class Interp:
 
     # -- attribute access ----------------------------------------------------------
     def getattr_(self, v, name, node):
+        if isinstance(v, Term):
+            if ("Term", name) in self.libattr:
+                return self.libattr[("Term", name)](self, v, node)
+            return LibMethod(v, name)
         if isinstance(v, Obj):
             if name in v.attrs:
                 self.reads.append((v.label, name))
@@ -1059,6 +1153,8 @@ class Interp:
 
     # -- subscripts ------------------------------------------------------------------
     def getitem(self, v, idx, node):
+        if isinstance(v, Term) or (isinstance(idx, Term) and isinstance(v, (list, tuple))):
+            return Term("getitem", [v, idx])
         if isinstance(v, dict):
             k = self.hashkey(idx, node)
             if k not in v:
@@ -1108,6 +1204,8 @@ class Interp:
 
     # -- arithmetic ----------------------------------------------------------------
     def binop(self, op, a, b, node):
+        if (isinstance(a, Term) or isinstance(b, Term)) and type(op).__name__ in _BINOP_NAME:
+            return Term(_BINOP_NAME[type(op).__name__], [a, b])
         if getattr(self, "sympy_mode", False) and (isinstance(a, ExtRef) or isinstance(b, ExtRef)) and \
                 type(a).__name__ != "Vec" and type(b).__name__ != "Vec" and not isinstance(a, str) and not isinstance(b, str):
             try:
@@ -1345,6 +1443,8 @@ class Interp:
         if isinstance(node.op, ast.Not):
             return not self.truth(v, node)
         if isinstance(node.op, ast.USub):
+            if isinstance(v, Term):
+                return Term("neg", [v])
             if isinstance(v, Num) or _is_sym(v):
                 return -v
             if type(v).__name__ == "Vec":
@@ -1462,6 +1562,8 @@ class Interp:
             return list(v.keys())
         if isinstance(v, str):
             return list(v)
+        if isinstance(v, Term):
+            return [Term("elem", [v])]      # one representative element stands for every element
         kind = self.kind_of(v)
         if (kind, "__iter__") in self.libmeth:
             return self.libmeth[(kind, "__iter__")](self, v, [], {}, node)
@@ -1704,6 +1806,8 @@ class Interp:
                 return Num.atom(f"len({I.describe(v)})")
             if type(v).__name__ == "Vec":
                 return Num.const(len(v.items))
+            if isinstance(v, Term):
+                return Term("len", [v])
             raise I.fault("TypeError", n, "object has no len()")
 
         def b_isinstance(I, a, k, n):
